@@ -225,6 +225,141 @@ def generate_mp_context(repo=None):
     return out, changed, []
 
 
+# ------------------------------------------------------------------- class attributes of the built-in backends
+ATTR_HEADER = """(* REGENERATED on every run by harness/gen_c17.py from the class bodies of joblib/_parallel_backends.py:
+   what getattr(backend, "supports_sharedmem", False) / getattr(backend, "uses_threads", False) see for the four built-in
+   backend classes (class attribute looked up along the bases written in the class statement; absent = False).
+   The two user-defined classes of the check (BCustShm / BCustProc) are defined by the harness itself.  Do not edit. *)
+From Coq Require Import ZArith List Bool.
+Require Import JV.Base.PyPrelude JV.Model.Config.
+Import ListNotations.
+Open Scope Z_scope.
+
+"""
+
+
+def generate_backend_attrs(repo=None):
+    import ast
+    repo = repo or common.REPO
+    pb = os.path.join(repo, "joblib", "_parallel_backends.py")
+    tree = ast.parse(open(pb, encoding="utf-8").read())
+    classes = {c.name: c for c in tree.body if isinstance(c, ast.ClassDef)}
+
+    def lookup(cls, attr, seen=()):
+        """class attribute along the written bases, depth-first left-to-right (no diamond among these classes)"""
+        if cls not in classes or cls in seen:
+            return None
+        for st in classes[cls].body:
+            if isinstance(st, ast.Assign) and len(st.targets) == 1 and isinstance(st.targets[0], ast.Name) and st.targets[0].id == attr:
+                if not (isinstance(st.value, ast.Constant) and isinstance(st.value.value, bool)):
+                    raise translate.TranslateError("translation of %s.%s no longer matches: not a boolean constant" % (cls, attr))
+                return st.value.value
+            if isinstance(st, ast.FunctionDef) and st.name == attr:
+                raise translate.TranslateError("translation of %s.%s no longer matches: defined as a method/property" % (cls, attr))
+        for b_ in classes[cls].bases:
+            r = lookup(ast.unparse(b_), attr, seen + (cls,))
+            if r is not None:
+                return r
+        return None
+    kinds = [("BSeq", "SequentialBackend"), ("BThr", "ThreadingBackend"), ("BLoky", "LokyBackend"), ("BMp", "MultiprocessingBackend")]
+    for _, cls in kinds:
+        if cls not in classes:
+            raise translate.TranslateError("translation of the backend classes no longer matches: %s not found" % cls)
+    defs = []
+    for attr, name in (("supports_sharedmem", "src_supports_sharedmem"), ("uses_threads", "src_uses_threads")):
+        arms = " ".join("| %s => %s" % (k, "true" if lookup(cls, attr) else "false") for k, cls in kinds)
+        defs.append("Definition %s (k : ckind) : bool :=\n  match k with %s | BCustShm => true | BCustProc => false end.\n" % (name, arms))
+    out = os.path.join(common.COQ, "Gen", "T_backend_attrs.v")
+    changed = common.write_if_changed(out, ATTR_HEADER + "\n".join(defs))
+    return out, changed, []
+
+
+# ------------------------------------------------------------------- temp folder of the pool; merge of backend kwargs
+POOL_HEADER = """(* REGENERATED on every run by harness/gen_c17.py.  Do not edit.
+   src_temp_folder: joblib/_memmapping_reducer.py (_get_temp_dir): the stores to temp_folder in source order -- arg = the
+     temp_folder the pool / executor was given (Parallel's resolved setting), env = JOBLIB_TEMP_FOLDER, shm = /dev/shm when it is
+     usable, tmpdir = tempfile.gettempdir(); path normalisation is the identity on these codes.
+   src_mp_pool_kwarg / src_loky_executor_kwarg: joblib/_parallel_backends.py (Multiprocessing/LokyBackend.configure): how the
+     kwargs carried by the backend OBJECT (obj = self.backend_kwargs[key]) and the kwargs of the call (call = what Parallel passes
+     to configure for that key) are merged before the pool / executor is built; None = key absent. *)
+From Coq Require Import ZArith List Bool.
+Require Import JV.Base.PyPrelude.
+Import ListNotations.
+Open Scope Z_scope.
+
+"""
+
+
+def generate_pool_settings(repo=None):
+    import ast
+    repo = repo or common.REPO
+    mr = os.path.join(repo, "joblib", "_memmapping_reducer.py")
+    node, _ = translate.find_function(mr, "_get_temp_dir")
+
+    def tf_stores(n):
+        return [x for x in ast.walk(n) if isinstance(x, ast.Assign) and ast.unparse(x.targets[0]) == "temp_folder"]
+    lets = []
+    for st in node.body:
+        if not tf_stores(st):
+            continue
+        if isinstance(st, ast.If) and ast.unparse(st.test) == "temp_folder is None" and not st.orelse:
+            vals = {ast.unparse(x.value) for x in tf_stores(st)}
+            if vals == {"os.environ.get('JOBLIB_TEMP_FOLDER', None)"} and len(st.body) == 1:
+                src = "env"
+            elif vals == {"tempfile.gettempdir()"} and len(st.body) == 1:
+                src = "Some tmpdir"
+            elif "SYSTEM_SHARED_MEM_FS" in vals and vals <= {"SYSTEM_SHARED_MEM_FS", "None"}:
+                src = "shm"
+            else:
+                raise translate.TranslateError("translation of _get_temp_dir no longer matches: stores %s under `temp_folder is None`" % sorted(vals))
+            lets.append("  let tf := match tf with Some _ => tf | None => %s end in" % src)
+        elif isinstance(st, ast.Assign) and ast.unparse(st.targets[0]) == "temp_folder":
+            v = ast.unparse(st.value)
+            if v == "os.path.abspath(os.path.expanduser(temp_folder))":
+                continue
+            if v == "os.environ.get('JOBLIB_TEMP_FOLDER', temp_folder)":
+                lets.append("  let tf := match env with Some e => Some e | None => tf end in")
+            elif v == "os.environ.get('JOBLIB_TEMP_FOLDER', None)":
+                lets.append("  let tf := env in")
+            else:
+                raise translate.TranslateError("translation of _get_temp_dir no longer matches: temp_folder = %s" % v)
+        else:
+            raise translate.TranslateError("translation of _get_temp_dir no longer matches: %s" % ast.unparse(st)[:80])
+    if not lets:
+        raise translate.TranslateError("translation of _get_temp_dir no longer matches: no store to temp_folder")
+    pb = os.path.join(repo, "joblib", "_parallel_backends.py")
+
+    def merge(qual, var, ctor):
+        fn, _ = translate.find_function(pb, qual)
+        names = {"self.backend_kwargs": "obj", var: "call"}
+        order = None
+        for st in ast.walk(fn):
+            if isinstance(st, ast.Assign) and ast.unparse(st.targets[0]) == var and isinstance(st.value, ast.Dict):
+                if any(k is not None for k in st.value.keys) or order is not None:
+                    raise translate.TranslateError("translation of %s no longer matches: %s" % (qual, ast.unparse(st)[:80]))
+                order = [ast.unparse(v) for v in st.value.values]
+            elif isinstance(st, ast.Expr) and isinstance(st.value, ast.Call) and ast.unparse(st.value.func) == var + ".update":
+                if order is not None or len(st.value.args) != 1:
+                    raise translate.TranslateError("translation of %s no longer matches: %s" % (qual, ast.unparse(st)[:80]))
+                order = [var, ast.unparse(st.value.args[0])]
+        if order is None or any(o not in names for o in order) or len(order) != 2 or set(order) != set(names):
+            raise translate.TranslateError("translation of %s no longer matches: merge of %s not recognised (%s)" % (qual, var, order))
+        calls = [n for n in ast.walk(fn) if isinstance(n, ast.Call) and ast.unparse(n.func) == ctor]
+        if len(calls) != 1 or var not in [ast.unparse(k.value) for k in calls[0].keywords if k.arg is None]:
+            raise translate.TranslateError("translation of %s no longer matches: %s(..., **%s) not found" % (qual, ctor, var))
+        first, last = names[order[0]], names[order[1]]          # later entries of the merge win
+        return "match %s with Some v => Some v | None => %s end" % (last, first)
+    text = POOL_HEADER + (
+        "Definition src_temp_folder (arg env shm : option Z) (tmpdir : Z) : option Z :=\n  let tf := arg in\n%s\n  tf.\n\n"
+        "Definition src_mp_pool_kwarg (obj call : option Z) : option Z := %s.\n"
+        "Definition src_loky_executor_kwarg (obj call : option Z) : option Z := %s.\n" % (
+            "\n".join(lets), merge("MultiprocessingBackend.configure", "memmapping_pool_kwargs", "MemmappingPool"),
+            merge("LokyBackend.configure", "memmapping_executor_kwargs", "get_memmapping_executor")))
+    out = os.path.join(common.COQ, "Gen", "T_pool_settings.v")
+    changed = common.write_if_changed(out, text)
+    return out, changed, []
+
+
 def generate(repo=None):
     repo = repo or common.REPO
     path = os.path.join(repo, "joblib", "parallel.py")
@@ -236,6 +371,10 @@ def generate(repo=None):
 
 
 if __name__ == "__main__":
+    print(generate_pool_settings())
+    print(open(os.path.join(common.COQ, "Gen", "T_pool_settings.v")).read())
+    print(generate_backend_attrs())
+    print(open(os.path.join(common.COQ, "Gen", "T_backend_attrs.v")).read())
     print(generate_mp_context())
     print(open(os.path.join(common.COQ, "Gen", "T_mp_context.v")).read())
     print(generate_active_backend())
